@@ -23,11 +23,11 @@ func VerifC10Attachment() {
 	vrt_Assume(phone[0]>>4 != 0)
 	for r := 0; r < nReads; r++ {
 		kind := vrt_Choose("chunkKind", 4)
-		if r > 0 && vrt_Tier() == 0 {
+		if r > 0 {
 			kind = 2 + vrt_Choose("secondKind", 2)
 		}
-		if kind == 0 && nReads == 2 && vrt_Tier() == 0 {
-			return // quick tier: arbitrary bytes are explored as the only read (thorough: also followed by a second read)
+		if kind == 0 && nReads == 2 {
+			return // arbitrary bytes are explored as the only read
 		}
 		switch kind {
 		case 0: // arbitrary bytes
